@@ -129,6 +129,19 @@ func runC14(cx *Ctx, r *Report) {
 	for _, o := range over {
 		r.toolErr("frame budget exceeded for %s", o)
 	}
+	// class and token records keep each setting in its own field, through messages and through
+	// a genesis round trip (rule shared with C12)
+	{
+		ents := append([]Entry{}, entries...)
+		for _, e := range cx.entriesOfModule("nft", "genesis") {
+			if e.Name == "InitGenesis" {
+				ents = append(ents, e)
+			}
+		}
+		if n := cx.crossedFieldsRule(r, ents, "fields-not-crossed"); n < 2 {
+			r.toolErr("only %d nft records assembled on message / import paths inspected (≥2 confirmed)", n)
+		}
+	}
 	for _, k := range []string{"nft.Mint", "nft.Burn", "nft.Update", "nft.Transfer", "nft.SaveClass", "nft.UpdateClass"} {
 		if seenKind[k] == 0 {
 			r.toolErr("no message path reaches %s (confirmed by hand that one exists)", k)
